@@ -69,7 +69,10 @@ class Gen:
 
     def samples(self, depth=3, nmax=3):
         r = self.r
-        return [self.obj(depth) for _ in range(r.randint(1, nmax))]
+        out = [self.obj(depth) for _ in range(r.randint(1, nmax))]
+        if len(out) < nmax and r.random() < 0.06:
+            out.insert(0 if r.random() < 0.7 else r.randrange(len(out) + 1), {})       # an empty record, usually the FIRST one
+        return out
 
     def family(self):
         """the usual shape of real data: sibling objects of ONE shape under a root, each holding a list of child objects
